@@ -94,6 +94,8 @@ func pollOneoffFn(_ context.Context, mod api.Module, params []uint64) sys.Errno 
 	var blockingStdinSubs []*event
 	// The timeout is initialized at max Duration, the loop will find the minimum.
 	var timeout time.Duration = 1<<63 - 1
+	// Without a clock subscription there is no timeout to observe.
+	hasClockSubscription := false
 	// Count of all the subscriptions that have been already written back to outBuf.
 	// nevents*32 returns at all times the offset where the next event should be written:
 	// this way we ensure that there are no gaps between records.
@@ -122,6 +124,7 @@ func pollOneoffFn(_ context.Context, mod api.Module, params []uint64) sys.Errno 
 			if err != 0 {
 				return err
 			}
+			hasClockSubscription = true
 			// Min timeout.
 			if newTimeout < timeout {
 				timeout = newTimeout
@@ -169,7 +172,7 @@ func pollOneoffFn(_ context.Context, mod api.Module, params []uint64) sys.Errno 
 		// earlier to offset `resultNevents`.
 		// We only need to observe the timeout (nonzero if there are clock subscriptions)
 		// and return.
-		if timeout > 0 {
+		if hasClockSubscription && timeout > 0 {
 			sysCtx.Nanosleep(int64(timeout))
 		}
 		return 0
